@@ -25,19 +25,29 @@ COMPOSITE = [I('allset', 'h_allset', bound='message with EVERY extension set at 
              I('ni_sensitive_full', 'h_ni_sensitive_full', bound='every sensitive field (and a fallback marker) set x ANY subset of the whitelisted fields (2^11): sensitive serialization unchanged; ' + STR, **BIG),
              I('ni_sensitive_empty', 'h_ni_sensitive_empty', bound='no sensitive field set x ANY subset of the whitelisted fields: sensitive part stays empty; ' + STR, **BIG)]
 KF_INSTANCES = [I('kf_jmi', 'h_kf_jmi', known_finding=KF), I('kf_call_invite', 'h_kf_call_invite', known_finding=KF)]
+SEND_TUS = TUS + ['src/client/QXmppClient.cpp']
+def SEND(c):
+    what = '%s, returned message %s XEP-0380 encryption namespace, %s e2ee fallback body, payload %s' % ('reply(stanza, e2eeMetadata)' if c & 8 else 'sendSensitive(stanza)', 'WITH' if c & 1 else 'WITHOUT', 'with' if c & 2 else 'without',
+            'reaction+receipt request+marker+chat state+markable' if c & 4 else 'body+subject+oob+attach-to+reply')
+    return I('send_c%d' % c, 'h_send_encrypted', unwind=14, tiers=('thorough',) if c in (1, 3, 5) else ('quick', 'thorough'), cdefs={'DOM_MAXCH': 12, 'DOM_MAXATTR': 16, 'VP_CASE': c}, bound='REAL QXmppClient send path: ' + what + '; origin-id and a store hint set; ' + STR)
+SEND_INSTANCES = [SEND(c) for c in (0, 1, 2, 3, 4, 5, 6, 7, 8 + 4, 8 + 1)] + [I('send_error', 'h_send_error', cdefs={'DOM_MAXCH': 12, 'DOM_MAXATTR': 16}, bound='REAL QXmppClient::sendSensitive, the encryption extension reports an error; ' + STR)]
 SPEC = dict(
     property='C17',
     groups=[
         dict(name='msg', harness='h.cpp', tus=TUS, models=MODELS, cxxdefs={'_GLIBCXX_RANGES': 1},
              instances=COMPOSITE + FIELD_INSTANCES + KF_INSTANCES),
+        dict(name='send', harness='h_send.cpp', tus=SEND_TUS, models=MODELS + ['c17_send.c'], cxxdefs={'_GLIBCXX_RANGES': 1}, shadow_task=True,
+             instances=SEND_INSTANCES),
     ],
-    bounds=['every string-valued field: exactly 1 arbitrary UTF-16 code unit (string LENGTHS are concrete, contents symbolic); integers, the stamp and the bob max-age: full range',
+    bounds=['send_*: one message per run through the real send path; 2 payload variants (body+subject+oob+attach-to+reply / reaction+receipt request+marker+chat state+markable) plus origin-id and a store hint; encryption result: message with/without XEP-0380 namespace x with/without fallback body, or error; entry sendSensitive or reply(e2eeMetadata)',
+            'every string-valued field: exactly 1 arbitrary UTF-16 code unit (string LENGTHS are concrete, contents symbolic); integers, the stamp and the bob max-age: full range',
             'f_*: message with exactly one extension field (or one group such as thread+parent, marker+id+thread, MUC jid+password+reason) set; enum-valued fields one value per instance (hints 4, chat states 5, markers 3; quick tier runs the boundary values)',
             'allset / allset_all / envelope: every extension at once: 13 elements in the public part, 25 in the sensitive part (<= 2 stanza ids, 1 element per list-valued field)',
             'ni_public_full/empty: every / no whitelisted field set, then ANY subset (2^24, symbolic presence flags) of the sensitive fields with any chat state / marker value on top; ni_sensitive_full/empty: the mirror image with ANY subset (2^11) of the whitelisted fields',
             'modes: ScePublic, SceSensitive, SceAll each serialized; parse(public tree, ScePublic) then parse(sensitive tree, SceSensitive) into one object; parse(unsplit tree, SceAll)',
             'DOM/writer tree model: <= 36 children, <= 24 distinct attribute names; QVector payloads <= 4 elements'],
-    assumptions=['the extension classes of other translation units (QXmppOutOfBandUrl, QXmppBitsOfBinaryData, QXmppJingleMessageInitiationElement, QXmppCallInviteElement, QXmppMixInvitation, QXmppTrustMessageElement, QXmppMessageReaction, QXmppFileShare, QXmppFileSourcesAttachment) are one-value stand-ins (c17_env.h) that write/recognise/parse ONE element with the real tag and namespace and an attribute "v": C17 is about which mode-guarded block of QXmppMessage calls them, their own codecs are C01\'s subject',
+    assumptions=['group send (REAL QXmppClient::sendSensitive / reply): QXmppClient, QXmppClientPrivate, QXmppOutgoingClient are raw storage with only d, d->stream, d->encryptionExtension alive; the encryption extension is a mock whose encryptMessage returns an already finished task (QXmppTask/QXmppPromise = assume-guarantee shadow, contract by C13) holding the input message plus, by case, an XEP-0380 namespace+name and/or an e2ee fallback body, or a QXmppError; QXmlStreamWriter(QByteArray*) is the writer tree model bound to that array, QXmppPacket(const QByteArray&) picks that tree up, QXmppPacket(const QXmppNonza&) runs the stanza\'s real virtual toXml into a tree, StreamAckManager::send logs the tree and returns the packet\'s task (stream accounting: C09); dynamic_cast of the stanza: every stanza sent is a QXmppMessage',
+                 'the extension classes of other translation units (QXmppOutOfBandUrl, QXmppBitsOfBinaryData, QXmppJingleMessageInitiationElement, QXmppCallInviteElement, QXmppMixInvitation, QXmppTrustMessageElement, QXmppMessageReaction, QXmppFileShare, QXmppFileSourcesAttachment) are one-value stand-ins (c17_env.h) that write/recognise/parse ONE element with the real tag and namespace and an attribute "v": C17 is about which mode-guarded block of QXmppMessage calls them, their own codecs are C01\'s subject',
                  'QXmppElement (unknown extensions) is a counting stand-in: an element that falls through to "unknown extension" is counted, not stored',
                  'QDateTime/QTime/QTimeZone are abstract values (c17_models.c): text form = abstract number string, fromString(toString(x)) == x for valid x, any other text parses to an arbitrary date-time; all values are UTC',
                  'QXmlStreamWriter/QDom = shared tree model (serialize -> parse never goes through text; Qt\'s escaping/tokenising trusted); namespaceURI() = own xmlns or the parent\'s',
@@ -52,6 +62,6 @@ SPEC = dict(
              'receipt request together with a receipt id (the serializer drops the request by design)',
              'fallback markers with references (QXmppFallback codec itself is C01\'s subject; markers carry a for-namespace only)',
              'strings longer than 1 unit, more than 2 stanza ids / 1 element per list-valued extension; unknown (third-party) extension elements',
-             'QXmppClient::sendSensitive / QXmppOmemoManager call sites themselves (QXmppClient.cpp:523-570): the harness reproduces their call pattern toXml(ScePublic) + serializeExtensions(SceSensitive, ns_client) / parse(ScePublic) + parseExtensions(SceSensitive) in instance envelope',
+             'QXmppOmemoManager call sites (serializeExtensions(SceSensitive, ns_client) / parseExtensions(SceSensitive)): their call pattern is reproduced in instance envelope; the iq branch of sendSensitive (encryptIq) and sendSensitiveIq',
              'QXmppClient.cpp:198 parses an UNENCRYPTED message with SceSensitive when an e2ee extension is installed (public-block fields such as stanza-id are then dropped): observed while reading, not part of C17'],
 )
